@@ -44,9 +44,9 @@ type Script struct {
 var col = vstat.New("C17", "c17.shutdown")
 
 func gen(t *rapid.T) Script {
-	s := Script{Trigger: rapid.SampledFrom([]string{"cancel", "cancel", "cancel", "cancel-twice", "early", "http-close"}).Draw(t, "trigger"),
+	s := Script{Trigger: rapid.SampledFrom([]string{"cancel", "cancel", "cancel", "cancel-twice", "cancel-with-cause", "early", "http-close"}).Draw(t, "trigger"),
 		HoldMs: rapid.SampledFrom([]int64{300, 2000, 7000, 30000}).Draw(t, "hold")}
-	n := rapid.IntRange(0, 7).Draw(t, "n")
+	n := rapid.IntRange(0, 12).Draw(t, "n")
 	if s.Trigger == "early" {
 		n = 0
 	}
@@ -58,7 +58,7 @@ func gen(t *rapid.T) Script {
 		}
 		s.Conns = append(s.Conns, c)
 	}
-	if s.Trigger == "cancel" || s.Trigger == "cancel-twice" {
+	if s.Trigger == "cancel" || s.Trigger == "cancel-twice" || s.Trigger == "cancel-with-cause" {
 		s.AcceptDelayMs = rapid.SampledFrom([]int64{0, 0, 30, 1500}).Draw(t, "acceptDelay")
 		s.Burst = rapid.SampledFrom([]int{0, 0, 1, 2, 5, 12}).Draw(t, "burst")
 	}
@@ -75,7 +75,9 @@ func exec(t *testing.T, s Script) *vstat.Violation {
 			w.WriteHeader(200)
 			w.Write([]byte("ok"))
 		}
-		base, baseCancel := context.WithCancel(context.Background())
+		// (the context handed to the server may carry a cancellation cause: context.WithCancelCause)
+		base, causeCancel := context.WithCancelCause(context.Background())
+		baseCancel := func() { causeCancel(nil) }
 		defer baseCancel()
 		if s.Trigger == "early" {
 			baseCancel()
@@ -158,6 +160,8 @@ func exec(t *testing.T, s Script) *vstat.Violation {
 		case "cancel-twice":
 			p.Cancel()
 			p.Cancel()
+		case "cancel-with-cause":
+			causeCancel(errors.New("maintenance window"))
 		case "early":
 			// already cancelled before Serve started
 		case "http-close":
@@ -225,7 +229,12 @@ func exec(t *testing.T, s Script) *vstat.Violation {
 		lower := time.Duration(0)
 		// "within seconds": net/http's Shutdown closes never-used connections after 5 s and polls with
 		// a back-off of up to 500 ms (plus jitter), possibly twice in a row here
-		upper := 10*time.Second + 2*acceptDelay
+		// net/http's Shutdown closes idle connections at once, connections that have never carried a request after
+		// 5 s, and polls with a back-off of up to 500 ms (plus jitter); nothing else may take time
+		upper := 2500*time.Millisecond + 2*acceptDelay
+		if newH1 > 0 || s.Burst > 0 || s.Trigger == "http-close" || s.Trigger == "early" {
+			upper += 7500 * time.Millisecond
+		}
 		if inflightH1 > 0 {
 			lower = hold
 			if hold+2*time.Second > upper {
@@ -325,6 +334,6 @@ func exec(t *testing.T, s Script) *vstat.Violation {
 
 func TestShutdown(t *testing.T) {
 	rig.Certs()
-	col.Mandatory("at-cancel:mid-handshake", "at-cancel:h1-idle", "at-cancel:h1-new", "at-cancel:h1-inflight", "at-cancel:h2-idle", "at-cancel:h2-inflight", "handshakes-done-but-not-yet-accepted-at-cancel", "trigger:cancel", "trigger:cancel-twice", "trigger:early", "trigger:http-close")
+	col.Mandatory("at-cancel:mid-handshake", "at-cancel:h1-idle", "at-cancel:h1-new", "at-cancel:h1-inflight", "at-cancel:h2-idle", "at-cancel:h2-inflight", "handshakes-done-but-not-yet-accepted-at-cancel", "trigger:cancel", "trigger:cancel-with-cause", "trigger:cancel-twice", "trigger:early", "trigger:http-close")
 	vstat.Run(t, vstat.Spec[Script]{Col: col, Quick: 1200, Thorough: 30000, Gen: gen, Exec: func(s Script) *vstat.Violation { return exec(t, s) }})
 }
